@@ -36,6 +36,8 @@ type VC struct {
 	callCount   map[string]int
 	Assumptions map[string]bool
 	lastNow     Term
+	acquired    map[string]int
+	guardOf     map[string]string // guarded field heap name -> mutex field heap name
 	guards      map[string][]string
 }
 
@@ -122,6 +124,8 @@ type Frame struct {
 	backEdge map[[2]int]bool
 	subst    map[ssa.Value]*Val
 	held     map[string]bool
+	heldOut  map[*ssa.BasicBlock]map[string]bool
+	heldIn   map[string]bool
 	prefix   string
 }
 
@@ -141,7 +145,7 @@ type loopInfo struct {
 
 func NewVC(p *Prog, fn *ssa.Function, c *Contract) *VC {
 	vc := &VC{P: p, S: NewScript(), Fn: fn, C: c, structSorts: map[string]string{}, strLits: map[string]int{}, heapSorts: map[string]string{},
-		written: map[string]bool{}, Dropped: map[string]int{}, Trusted: map[string]bool{}, ghostDecl: map[string]bool{}, callCount: map[string]int{}, Assumptions: map[string]bool{}}
+		written: map[string]bool{}, Dropped: map[string]int{}, Trusted: map[string]bool{}, ghostDecl: map[string]bool{}, callCount: map[string]int{}, Assumptions: map[string]bool{}, acquired: map[string]int{}, guardOf: map[string]string{}}
 	vc.root = vc.newHeap(hRoot, nil)
 	vc.regHeap("$alloc", "(Array Int Bool)")
 	vc.S.DeclareRaw("TimeZero", "(define-fun TimeZero () Int (- 62135596800000000000))")
@@ -417,7 +421,7 @@ func (vc *VC) addObl(o *Obligation) *Obligation {
 func (vc *VC) newFrame(fn *ssa.Function, c *Contract, depth int) *Frame {
 	vc.nframe++
 	fr := &Frame{vc: vc, fn: fn, c: c, id: vc.nframe, vals: map[ssa.Value]*Val{}, reach: map[*ssa.BasicBlock]Term{}, edges: map[[2]int]Term{},
-		heapOut: map[*ssa.BasicBlock]*Heap{}, params: map[string]*Val{}, depth: depth, loops: map[*ssa.BasicBlock]*loopInfo{}, backEdge: map[[2]int]bool{}, held: map[string]bool{}}
+		heapOut: map[*ssa.BasicBlock]*Heap{}, params: map[string]*Val{}, depth: depth, loops: map[*ssa.BasicBlock]*loopInfo{}, backEdge: map[[2]int]bool{}, held: map[string]bool{}, heldOut: map[*ssa.BasicBlock]map[string]bool{}, heldIn: map[string]bool{}}
 	fr.prefix = fmt.Sprintf("f%d", fr.id)
 	return fr
 }
@@ -568,6 +572,7 @@ func (fr *Frame) run(entryReach Term, entryHeap *Heap) {
 		if b.Index == 0 {
 			reach = entryReach
 			heapIn = entryHeap.Derive()
+			fr.held = copySet(fr.heldIn)
 		} else {
 			var conds []Term
 			var heaps []*Heap
@@ -583,6 +588,21 @@ func (fr *Frame) run(entryReach Term, entryHeap *Heap) {
 				conds = append(conds, e)
 				heaps = append(heaps, fr.heapOut[p])
 				fpreds = append(fpreds, p)
+			}
+			fr.held = nil
+			for _, p := range fpreds {
+				if fr.held == nil {
+					fr.held = copySet(fr.heldOut[p])
+				} else {
+					for k := range fr.held {
+						if !fr.heldOut[p][k] {
+							delete(fr.held, k)
+						}
+					}
+				}
+			}
+			if fr.held == nil {
+				fr.held = map[string]bool{}
 			}
 			if len(conds) == 0 {
 				reach = "false"
@@ -615,6 +635,7 @@ func (fr *Frame) run(entryReach Term, entryHeap *Heap) {
 			fr.step(in)
 		}
 		fr.heapOut[b] = fr.cur
+		fr.heldOut[b] = copySet(fr.held)
 	}
 	_ = fn
 }
@@ -865,4 +886,14 @@ func (fr *Frame) closeLoop(li *loopInfo, from *ssa.BasicBlock, edge Term) {
 		vc.addObl(&Obligation{Kind: "inv-step", Anchor: fmt.Sprintf("loop%d#%d", li.ordinal, k), Props: fr.c.ClauseProps(inv), Desc: inv.Src, File: inv.File, Line: inv.Line,
 			Goals: []Goal{{edge, c}}, Mark: vc.S.Mark()})
 	}
+}
+
+func copySet(m map[string]bool) map[string]bool {
+	o := map[string]bool{}
+	for k, v := range m {
+		if v {
+			o[k] = true
+		}
+	}
+	return o
 }
